@@ -9,12 +9,65 @@ HERE = os.path.dirname(os.path.dirname(os.path.abspath(__file__)))
 BASELINE = ("cd /repo && /venv/bin/python -m pytest -ra -q -p no:cacheprovider --timeout=900 "
             "--continue-on-collection-errors")
 
+LL_NOTE = 'Trusted: clang lowering to IR at -O1 for this target, z3, the shim GLib headers (types/macros only), the C models of libc string functions used in the IR build (validated against glibc on every run through the native twin). Functions of files that do not compile against the shim are copied verbatim from the current /repo file by a slicer at run time (a missing function is a harness error).'
+
 CH_NOTE = ("Trusted: CPython, CrossHair 0.0.110's models of int/bool/str primitives, z3; the C lexer is "
            "replaced by plain declaration records fed to the real SourceSymbol/SourceType wrappers; "
            "diagnostics go to a recorder; str(int) is kept as a boxed integer. Every counterexample is "
            "replayed under /venv/bin/python without CrossHair before it is reported.")
 
 CLAIMS = {
+    'C17': dict(
+        engine='LLSYM',
+        technique='symbolic execution of the LLVM IR clang emits for functions sliced verbatim from '
+                  'girepository/girepository.c (own IR interpreter over z3 bit-vectors, flat byte memory, unwinding '
+                  'assertion); counterexamples replayed natively',
+        category='model_checking',
+        text='Kernels only: parse_version on every NUL-terminated string of 0-5 arbitrary bytes (D+ / D+.D+ give the '
+             'numeric pair, no read outside the string); compare_version = numeric (major, minor) order (1.10 > 1.9); '
+             'compare_candidate_reverse on three candidates with symbolic versions and directory indices is a strict '
+             'weak order whose minimum is the highest version, earliest directory; get_registered_status / '
+             'check_version_conflict over loaded / lazily loaded / absent namespaces with any requested and registered '
+             'version strings (same version returned, different version is a conflict, lazy entries only with '
+             'allow_lazy); load_dependencies_recurse splits Namespace-version at the LAST dash and requires each '
+             'dependency once until the first failure. z3 decides every branch and assertion; vacuity twins; '
+             'translator validation native == LLSYM == expected on 44 cases.',
+        design_ref='DESIGN.md section 4, C17',
+        note=LL_NOTE + ' Not claimed: search-path construction, directory enumeration, file mapping, registration '
+             'tables, g_slist_sort (trusted), strtol overflow beyond 5-byte strings; no libgirepository can be built '
+             'here.'),
+    'C14': dict(
+        engine='LLSYM',
+        technique='symbolic execution of the LLVM IR of functions sliced verbatim from girepository/gitypelib.c and '
+                  'gthash.c over a symbolic typelib image; cmph_search_packed is an uninterpreted function '
+                  'constrained only by the perfect-hash contract; out-of-bounds reads are counterexamples replayed '
+                  'under AddressSanitizer',
+        category='model_checking',
+        text='Kernels only: g_typelib_get_dir_entry, get_section_by_id, g_typelib_get_dir_entry_by_name (hash and '
+             'linear branches), _by_gtype_name, _by_error_domain, g_typelib_matches_gtype_name_prefix and '
+             '_gi_typelib_hash_search on a 320-byte image with 1-3 local entries, names / GType names / error domains of '
+             '0-3 (thorough 0-4) arbitrary bytes, four section-table variants, every injective hash assignment on the '
+             'names and arbitrary hash values on absent keys: a probe equal to name i returns entry i, a probe equal to '
+             'no name returns NULL and never another entry, registered types / error enums likewise, every read stays '
+             'inside the image under the invariants g_typelib_validate enforces.',
+        design_ref='DESIGN.md section 4, C14',
+        note=LL_NOTE + ' The BDZ perfect-hash construction/evaluation (cmph), up to 65535 entries, long names and '
+             'g_irepository_find_by_* are outside the claim.'),
+    'C09': dict(
+        engine='LLSYM',
+        technique='symbolic execution of the LLVM IR of girepository/giobjectinfo.c, giinterfaceinfo.c, gistructinfo.c, '
+                  'giunioninfo.c, gienuminfo.c (whole files) and the attribute search sliced from gibaseinfo.c; '
+                  'counterexamples replayed natively under AddressSanitizer',
+        category='model_checking',
+        text='Kernels only: the offset arithmetic of the i-th interface / field / property / method / signal / vfunc / '
+             'constant / value accessors of objects, interfaces, structs, unions and enums for every combination of '
+             'section counts (arbitrary u16; up to 3 interfaces and 3 fields with or without embedded callbacks '
+             'materialised) equals the layout of gitypelib-internal.h (odd-interface padding, embedded CallbackBlobs, '
+             'section order); _attribute_blob_find_first / g_base_info_iterate_attributes on sorted tables of 0-5 '
+             'entries return exactly the entries of the blob, in order, reading only inside the image.',
+        design_ref='DESIGN.md section 4, C09',
+        note=LL_NOTE + ' g_info_new is stubbed to return its offset. Not claimed: g_irepository_* enumeration, '
+             'find-by-name helpers, type/flag decoding, girwriter.c / g-ir-generate output.'),
     'C04': dict(
         engine='CH',
         technique='solver-driven path exploration of the real scanner pipeline with CrossHair/z3 (finite-choice '
